@@ -245,6 +245,8 @@ pub enum TrapKind {
     IntraInstanceNonNumeric,
     TaskReturnTwice,
     ContextMisuse,
+    /// the execution produced an absurd number of events (harness bound)
+    Runaway,
     Other,
 }
 impl TrapKind {
@@ -266,6 +268,7 @@ impl TrapKind {
             TrapKind::IntraInstanceNonNumeric => "intra-instance-copy-of-non-numeric",
             TrapKind::TaskReturnTwice => "task-resolved-twice",
             TrapKind::ContextMisuse => "context-slot-misuse",
+            TrapKind::Runaway => "runaway-execution",
             TrapKind::Other => "other",
         }
     }
@@ -430,6 +433,9 @@ impl Host {
     }
 
     fn call(&mut self, name: &'static str, a: u64, b: u64, ret: u64) {
+        if self.log.len() > 60_000 && self.trap.is_none() {
+            self.trap(TrapKind::Runaway, "more than 60000 events in one execution".into());
+        }
         *self.calls.entry(name).or_insert(0) += 1;
         self.log.push(Ev::Call { task: self.cur_task, name, a, b, ret });
     }
